@@ -56,6 +56,18 @@ CHECKS = {
         "DESIGN.md §4 C13",
         TRUSTED + " Only MUST_ERROR histories are enforced; everything the property does not name is don't-care.",
     ),
+    "C06": (
+        "deviation-bounded exhaustive generation of diagram texts in the documented subset, each parsed by the real PumlParser and compared with the generator's ground truth",
+        "For every set of up to 3 (thorough: 4) components, every dependency relation over them and every combination of at most D deviations from the default textual form (declaration form, arrow form, reference form per arrow end, line order, noise outside the tags) the diagram is written to a file and parsed with the real PumlParser; modules and relation must equal the generator's ground truth; files without start/end tag must raise PumlParsingError.",
+        "DESIGN.md §4 C06",
+        TRUSTED + " Only the documented PlantUML subset is generated; the deviation bound D is reported.",
+    ),
+    "C17": (
+        "exhaustive enumeration of module trees x alias maps x keyword combinations; drawing backend intercepted; labels compared with the label model",
+        "For every tree shape in the bound under collision-free, adversarial and non-ASCII naming and every alias map with up to k keys (alias strings including regex metacharacters and dots), visualize() is called on the real evaluable with the drawing backend replaced by a recorder; labels, node coverage, pos for spacing and pass-through keywords are compared with the model; unknown alias keys must raise naming the key.",
+        "DESIGN.md §4 C17",
+        TRUSTED + " networkx.draw_networkx is replaced by a recorder at the module attribute pytestarch imports.",
+    ),
 }
 
 PENDING = {}
